@@ -6,7 +6,6 @@ import (
 	"go/token"
 	"go/types"
 	"sort"
-	"strings"
 
 	"golang.org/x/tools/go/ssa"
 )
@@ -167,19 +166,26 @@ var ruleModeGuard = &Rule{
 			}
 			fs := factsAt(s.Instr.Block())
 			guard := ""
+			byMode, byFlagSeen := false, false
 			for _, f := range fs {
 				if u, ok := f.Cond.(*ssa.UnOp); ok && u.Op == token.MUL && !f.Truth {
 					if fld, _ := p.execFieldOf(u.X); fld == ignore {
 						guard = "only where structural errors are not ignored (" + ignore.Name() + " == false)"
+						byFlagSeen = true
 					}
 				}
 				if c, ok := f.Cond.(*ssa.Call); ok && p.modePredicate(c.Call.StaticCallee()) == "lax" && !f.Truth {
 					guard = "only where " + c.Call.StaticCallee().Name() + "() is false (strict mode)"
+					byMode = true
 				}
 			}
-			byFlag := strings.HasPrefix(guard, "only where structural errors")
+			byFlag := byFlagSeen
 			if kind := targets[s.Fn]; guard != "" && !byFlag && (kind == "KeyNode" || kind == "ConstAnyKey") {
 				out.viol(key, p.pos(s.Instr.Pos()), fnName(s.Fn), "a member accessor raises its structural error whenever the path is strict, without consulting "+ignore.Name()+": below `.**` member accessors must skip the nodes they do not apply to ("+s.Text+")")
+				continue
+			}
+			if kind := targets[s.Fn]; guard != "" && byFlag && kind == "ArrayIndexNode" && !byMode {
+				out.viol(key, p.pos(s.Instr.Pos()), fnName(s.Fn), "the subscript accessor raises its wrong-kind error only where "+ignore.Name()+" is off, so below `.**` a strict path silently skips values that are not arrays: only member accessors may skip there ("+s.Text+")")
 				continue
 			}
 			if guard != "" {
@@ -208,7 +214,7 @@ func init() {
 	})
 	addProp(&PropSpec{
 		ID:          "C07",
-		Rules:       []string{"R-MODEGUARD", "R-MODEPRED", "R-ONELEVEL", "R-STATE", "R-PAIR-C", "R-FAILSTOP"},
+		Rules:       []string{"R-MODEGUARD", "R-MODEPRED", "R-ONELEVEL", "R-STATE", "R-PAIR-C", "R-FAILSTOP", "R-TRUNC"},
 		Explanation: "Lax absorbs / strict reports as control dependence: every structural error an accessor step raises is on a branch where strictness is established, the mode predicates depend on the path's flag only, the temporary override below .** is restored on every exit, and a failed (status, error) pair is returned from whatever position of a subscript list or array it arises at.",
 		Decided: []string{"R-FAILSTOP: a failed status, with or without an error value, is returned from whatever position of a list, array or recursive descent it arises at", "R-MODEGUARD: structural errors of accessor steps are guarded by strictness (tabled exceptions: subscript value conversion)",
 			"R-MODEPRED: autoWrap/autoUnwrap/strict predicates and the initial flag are functions of IsLax only",
@@ -277,13 +283,26 @@ var ruleOneLevel = &Rule{
 		}
 		out.Counts["element_appliers"] = len(apps)
 		out.Floors["element_appliers"] = 1
-		n := 0
+		n, nnext := 0, 0
 		ord := ordinals{}
 		for _, ap := range apps {
 			for _, caller := range p.execFuncs() {
 				for _, c := range callsTo(caller, ap.fn) {
 					if q := p.ownNodeParam(c.Call.Args[ap.nodeI], 0); q == nil {
-						continue // moves on to another node: the mode decides
+						// moves on to another node: the mode alone decides
+						nnext++
+						key := fmt.Sprintf("%s applies the next node through %s #%d", fnName(caller), ap.fn.Name(), ord.next(fnName(caller)+"/next"))
+						flag := c.Call.Args[ap.flagI]
+						fc, isCall := flag.(*ssa.Call)
+						switch {
+						case isCall && p.modePredicate(fc.Call.StaticCallee()) == "lax":
+							out.ok(key, p.pos(c.Pos()), fnName(caller), "elements are unwrapped for the next step exactly in lax mode ("+fc.Call.StaticCallee().Name()+")")
+						case isNilConst(c.Call.Args[ap.nodeI]):
+							out.ok(key, p.pos(c.Pos()), fnName(caller), "no next node: nothing is applied")
+						default:
+							out.viol(key, p.pos(c.Pos()), fnName(caller), "whether the next step may unwrap the elements it is applied to depends on "+trunc(flag.String(), 50)+" instead of the path's mode alone: in lax mode array-valued members are no longer unwrapped for a following accessor or filter (or in strict mode they are)")
+						}
+						continue
 					}
 					n++
 					key := fmt.Sprintf("%s re-applies its own node through %s #%d", fnName(caller), ap.fn.Name(), ord.next(fnName(caller)))
@@ -301,6 +320,8 @@ var ruleOneLevel = &Rule{
 		}
 		out.Counts["own_node_reapplications"] = n
 		out.Floors["own_node_reapplications"] = 2
+		out.Counts["next_node_applications"] = nnext
+		out.Floors["next_node_applications"] = 2
 		return out
 	},
 }
